@@ -381,6 +381,16 @@ fn escape_family(rep: &mut Report, net: Network, theta: u32, fork_len: usize, ma
     rep.out.merge(out);
 }
 
+/// Sliced variant: multi-output bodies and ingestion budgets, so that threshold changes
+/// also land in the middle of an ingestion.
+pub fn sliced_model(net: Network, theta: u32, n: usize, thresholds: &[u32]) -> ChainModel<C03> {
+    let mut m = model(net, theta, n, &[1], thresholds, 1);
+    m.alpha.bodies = vec![BODY_CB, BODY_MULTI];
+    m.alpha.max_special = 2;
+    m.alpha.budgets = vec![0, 1];
+    m
+}
+
 pub fn model(net: Network, theta: u32, n: usize, diffs: &[u8], thresholds: &[u32], max_tc: usize) -> ChainModel<C03> {
     let mut alpha = Alphabet::tree(n, diffs);
     alpha.thresholds = thresholds.to_vec();
@@ -417,12 +427,23 @@ pub fn run(tier: &str) -> i32 {
     };
     for (net, theta, n, diffs, ths, tc) in parts {
         let m = model(net, theta, n, &diffs, &ths, tc);
-        let e = explore(&m, &Limits::new(3, if quick { 50 } else { 3000 }));
+        let e = explore(&m, &Limits::new(3, if quick { 300 } else { 3000 }));
         rep.absorb(
             &format!("TREE net={} theta={} n={} D={:?} thresholds={:?}x{}", net, theta, n, diffs, ths, tc),
             e,
             json!({"network": net.to_string(), "threshold": theta, "max_blocks": n, "difficulties": diffs,
                    "set_threshold_values": ths, "max_threshold_changes": tc}),
+        );
+    }
+    // threshold changes in the middle of a sliced ingestion
+    let sliced: Vec<(u32, usize, Vec<u32>)> = if quick { vec![(1, 3, vec![1, 2])] } else { vec![(1, 4, vec![1, 2, 3]), (2, 4, vec![1, 3])] };
+    for (theta, n, ths) in sliced {
+        let m = sliced_model(Network::Regtest, theta, n, &ths);
+        let e = explore(&m, &Limits::new(3, if quick { 300 } else { 3000 }));
+        rep.absorb(
+            &format!("TREE sliced theta={} n={} thresholds={:?} budgets=[unlimited,1]", theta, n, ths),
+            e,
+            json!({"network": "regtest", "threshold": theta, "max_blocks": n, "set_threshold_values": ths, "ingestion_budgets": [0, 1]}),
         );
     }
     // depth-escape family
